@@ -91,6 +91,16 @@ Theorem normal_is_ellipsoid_gradient : forall a e2 lat lon,
 Proof. exact P.normal_is_ellipsoid_gradient. Qed.
 Print Assumptions normal_is_ellipsoid_gradient.
 
+(* the point of the ellipsoid with outward normal n, written with n alone (what check_normal evaluates on the reported Up), is
+   that foot point *)
+Theorem foot_of_normal : forall a e2 lat lon, 0 < a -> 0 <= e2 < 1 ->
+  let n := normal lat lon in
+  let b2 := a * a * (1 - e2) in
+  let D := sqrt (a * a * (vx n * vx n + vy n * vy n) + b2 * (vz n * vz n)) in
+  V3 (a * a * vx n / D) (a * a * vy n / D) (b2 * vz n / D) = geodetic_point a e2 lat lon 0.
+Proof. exact P.foot_of_normal. Qed.
+Print Assumptions foot_of_normal.
+
 (* ... and the geodetic height runs along it *)
 Theorem height_along_normal : forall a e2 lat lon h,
   geodetic_point a e2 lat lon h = vadd (geodetic_point a e2 lat lon 0) (vscale h (normal lat lon)).
